@@ -79,63 +79,64 @@ func runC09(c *Ctx) {
 		// a write made in a helper is examined once per operation (entry function) through which the helper is reached,
 		// in that operation's frame: the helper's parameters are then the operation's values and the must-facts at
 		// the operation's call site hold
-		for _, fn := range w.entriesOf(a.Fn, ctorFn, ctor) {
-			nCW++
-			c.Saw(fn)
-			f := w.Facts(fn)
-			mu := a.Instr.(*ssa.MapUpdate)
-			b := mu.Block()
-			key := shortFn(fn)
-			// mode on: field load true, or (constructor) the mode parameter true
-			modeOn := f.Any(b, func(l Lit) bool {
-				if m.isLoadOfField(l.V, m.fNoUp) {
-					return l.Pol
-				}
-				if p, ok := w.canon(fn, l.V).(*ssa.Parameter); ok && fn == ctorFn && l.Pol {
-					// it is the parameter stored into the mode field
-					for _, acc := range w.FieldAccesses(m.Server, m.fNoUp) {
-						if st, ok := acc.Instr.(*ssa.Store); ok && acc.Fn == fn && st.Val == ssa.Value(p) {
-							return true
+		for _, fn := range w.entriesOf(a.Home(), ctorFn, ctor) {
+			w.WithAccess(fn, a, func(f *Facts) {
+				nCW++
+				c.Saw(fn)
+				mu := a.Instr.(*ssa.MapUpdate)
+				b := mu.Block()
+				key := shortFn(fn)
+				// mode on: field load true, or (constructor) the mode parameter true
+				modeOn := f.Any(b, func(l Lit) bool {
+					if m.isLoadOfField(l.V, m.fNoUp) {
+						return l.Pol
+					}
+					if p, ok := w.canon(fn, l.V).(*ssa.Parameter); ok && fn == ctorFn && l.Pol {
+						// it is the parameter stored into the mode field
+						for _, acc := range w.FieldAccesses(m.Server, m.fNoUp) {
+							if st, ok := acc.Instr.(*ssa.Store); ok && acc.Fn == fn && st.Val == ssa.Value(p) {
+								return true
+							}
+						}
+					}
+					return false
+				})
+				c.Check(modeOn, "R1.cachewrites", key+"|cache written only in no-upstream mode", w.Pos(mu.Pos()), "must-fact: mode on", "the hidden-certificate cache can be filled with the mode off: certificates would be hidden although nothing should be")
+				// the key: hash(cert.Marshal()) with cert = result 0 of the cast
+				var cast *ssa.Call
+				hk := w.Expr(mu.Key)
+				for _, call := range w.callsInDeep(fn) {
+					if cv, ok := call.(*ssa.Call); ok && strings.HasSuffix(calleeName(cv), "sshutils/key.CastSSHPublicKeyToCertificate") {
+						if ex := extractOf(cv, 0); ex != nil && strings.Contains(hk, "Certificate).Marshal>("+w.Expr(ex)+")") {
+							cast = cv
 						}
 					}
 				}
-				return false
-			})
-			c.Check(modeOn, "R1.cachewrites", key+"|cache written only in no-upstream mode", w.Pos(mu.Pos()), "must-fact: mode on", "the hidden-certificate cache can be filled with the mode off: certificates would be hidden although nothing should be")
-			// the key: hash(cert.Marshal()) with cert = result 0 of the cast
-			var cast *ssa.Call
-			hk := w.Expr(mu.Key)
-			for _, call := range w.callsInDeep(fn) {
-				if cv, ok := call.(*ssa.Call); ok && strings.HasSuffix(calleeName(cv), "sshutils/key.CastSSHPublicKeyToCertificate") {
-					if ex := extractOf(cv, 0); ex != nil && strings.Contains(hk, "Certificate).Marshal>("+w.Expr(ex)+")") {
-						cast = cv
+				if cast == nil {
+					c.Bad("R1.cachewrites", key+"|cache key is the hash of a cast certificate", w.Pos(mu.Pos()), "the cache key is not hash(cert.Marshal()) of a certificate obtained from the cast: "+w.Short(mu.Key))
+					return
+				}
+				certV := extractOf(cast, 0)
+				isNil, known := f.KnownNil(b, extractOf(cast, 1))
+				c.Check(known && isNil, "R1.cachewrites", key+"|only certificates are cached", w.Pos(mu.Pos()), "must-fact: cast err == nil", "a cache entry can be written although the cast to a certificate failed")
+				okKid := f.Any(b, func(l Lit) bool {
+					y, isNil, ok := nilTest(l)
+					if !ok || !isNil {
+						return false
 					}
-				}
-			}
-			if cast == nil {
-				c.Bad("R1.cachewrites", key+"|cache key is the hash of a cast certificate", w.Pos(mu.Pos()), "the cache key is not hash(cert.Marshal()) of a certificate obtained from the cast: "+w.Short(mu.Key))
-				continue
-			}
-			certV := extractOf(cast, 0)
-			isNil, known := f.KnownNil(b, extractOf(cast, 1))
-			c.Check(known && isNil, "R1.cachewrites", key+"|only certificates are cached", w.Pos(mu.Pos()), "must-fact: cast err == nil", "a cache entry can be written although the cast to a certificate failed")
-			okKid := f.Any(b, func(l Lit) bool {
-				y, isNil, ok := nilTest(l)
-				if !ok || !isNil {
-					return false
-				}
-				ex, isEx := strip(y).(*ssa.Extract)
-				if !isEx {
-					return false
-				}
-				cv, isCall := ex.Tuple.(*ssa.Call)
-				if !isCall || !strings.HasSuffix(calleeName(cv), "keyid.Unmarshal") {
-					return false
-				}
-				// argument is certV.KeyId
-				return w.Expr(cv.Call.Args[0]) == w.Expr(certV)+".KeyId"
+					ex, isEx := strip(y).(*ssa.Extract)
+					if !isEx {
+						return false
+					}
+					cv, isCall := ex.Tuple.(*ssa.Call)
+					if !isCall || !strings.HasSuffix(calleeName(cv), "keyid.Unmarshal") {
+						return false
+					}
+					// argument is certV.KeyId
+					return w.Expr(cv.Call.Args[0]) == w.Expr(certV)+".KeyId"
+				})
+				c.Check(okKid, "R1.cachewrites", key+"|only YSSHCA certificates are hidden", w.Pos(mu.Pos()), "must-fact: keyid.Unmarshal(cert.KeyId) == nil for the cached certificate", "a certificate can be cached (hidden) without the must-fact that ITS KeyID decodes as a YSSHCA KeyID")
 			})
-			c.Check(okKid, "R1.cachewrites", key+"|only YSSHCA certificates are hidden", w.Pos(mu.Pos()), "must-fact: keyid.Unmarshal(cert.KeyId) == nil for the cached certificate", "a certificate can be cached (hidden) without the must-fact that ITS KeyID decodes as a YSSHCA KeyID")
 		}
 	}
 	c.Floor("R1.cachewrites", nCW, 3, "writes to the hidden-certificate cache")
@@ -179,25 +180,34 @@ func runC09(c *Ctx) {
 		case "mapdelete":
 			nDel++
 			call := a.Instr.(ssa.CallInstruction)
-			okKey := strings.Contains(w.Expr(call.Common().Args[1]), "Marshal>(p1)")
-			c.Check(a.Fn == remove && okKey, "R4.maintenance", "remove|cache entry dropped with the key", w.Pos(a.Instr.Pos()), "delete(cache, hash(key.Marshal())) in the removal helper", "the cache entry deleted is not the removed key's")
-			// gating: only the mode flag and the success of the removal may gate the delete
-			f := w.Facts(a.Fn)
-			extra := ""
-			for l := range f.Primary(a.Instr.Block()) {
-				if m.isLoadOfField(l.V, m.fNoUp) {
-					continue
+			home := a.Home()
+			okKey, extra := false, ""
+			w.WithAccess(home, a, func(f *Facts) {
+				okKey = strings.Contains(w.Expr(call.Common().Args[1]), "Marshal>(p1)")
+				c.Check(home == remove && okKey, "R4.maintenance", "remove|cache entry dropped with the key", w.Pos(a.Instr.Pos()), "delete(cache, hash(key.Marshal())) in the removal helper", "the cache entry deleted is not the removed key's")
+				// gating: only the mode flag and the success of the removal may gate the delete
+				gate := f.Primary(a.Instr.Block())
+				if a.Via != nil {
+					gate = f.Primary(a.Via.Block())
+					for l := range w.factsOf(a.Fn).Local(a.Instr.Block()) {
+						gate[l] = true
+					}
 				}
-				ex := w.Short(l.V)
-				if strings.Contains(ex, "Agent).Remove>") || strings.Contains(ex, "ok") || strings.Contains(ex, "alloc<bool>") || strings.Contains(ex, "var<bool>") || strings.Contains(ex, "phi{") || strings.Contains(ex, "const(") {
-					continue
+				for l := range gate {
+					if m.isLoadOfField(l.V, m.fNoUp) {
+						continue
+					}
+					ex := w.Short(l.V)
+					if strings.Contains(ex, "Agent).Remove>") || strings.Contains(ex, "ok") || strings.Contains(ex, "alloc<bool>") || strings.Contains(ex, "var<bool>") || strings.Contains(ex, "phi{") || strings.Contains(ex, "const(") {
+						continue
+					}
+					extra = ex
 				}
-				extra = ex
-			}
+			})
 			c.Check(extra == "", "R4.maintenance", "remove|cache entry dropped on every successful removal", w.Pos(a.Instr.Pos()), "gated by the mode flag / removal success only", "dropping the cache entry additionally depends on "+extra)
 		case "mapread":
-			if a.Fn == remove || a.Fn == m.Methods["Remove"] {
-				c.Bad("R4.maintenance", shortFn(a.Fn)+"|removal not gated by the cache", w.Pos(a.Instr.Pos()), "a cache lookup in the removal path: hidden certificates could become unremovable")
+			if a.Home() == remove || a.Home() == m.Methods["Remove"] {
+				c.Bad("R4.maintenance", shortFn(a.Home())+"|removal not gated by the cache", w.Pos(a.Instr.Pos()), "a cache lookup in the removal path: hidden certificates could become unremovable")
 			}
 		}
 	}
